@@ -2,7 +2,7 @@
 (* Monitor for the `neigh` world: one real Ethernet interface, every other station played by the harness.
    C16: N1 a unicast IP frame goes to a hardware address learned (from a validated ARP message) for its next hop and
            confirmed less than 60 s ago;  N2 next hop = destination if on-link, else gateway of the longest-prefix
-           unexpired route;  N3 discovery for one target at most once per second;  N4 queued data is not lost while
+           unexpired route;  N3 discovery requests (ARP requests for any target) are at least one second apart;  N4 queued data is not lost while
            unresolved and goes out (exactly once, D3) once resolvable
    C09: D1 wire order per socket = accept order, D2 at most once, D3 exactly once at quiescence when resolvable,
         D4 payload/addresses/ports unmodified, D5 inbound datagrams delivered whole, once, in order, with correct
@@ -66,7 +66,9 @@ OutStep(a, o, now) ==
   IF "et" \notin DOMAIN o THEN [a EXCEPT !.v = @ \o << <<l, "E2", "unparsed">> >>]
   ELSE IF o.et = "arp" THEN
        LET i == Idx(a.disc, LAMBDA x : x.tpa = o.tpa)
-           n3 == P("N3", o.op # 1 \/ i = 0 \/ now - a.disc[i].t >= 1000, <<o.tpa, IF i = 0 THEN -1 ELSE now - a.disc[i].t>>)
+           \* discovery requests (for any target) are at least one second apart
+           recent == {j \in 1..Len(a.disc) : now - a.disc[j].t < 1000}
+           n3 == P("N3", o.op # 1 \/ recent = {}, <<o.tpa, IF recent = {} THEN -1 ELSE now - a.disc[CHOOSE j \in recent : TRUE].t, IF i \in recent THEN "same-target" ELSE "other-target">>)
            e3 == P("E3", o.spa = cfg.my_ip /\ o.sha = cfg.my_mac /\ o.smac = cfg.my_mac, <<"arp", o.spa>>)
        IN [a EXCEPT !.disc = IF o.op # 1 THEN @ ELSE (IF i = 0 THEN @ ELSE Remove(@, i)) \o <<[tpa |-> o.tpa, t |-> now]>>,
                     !.v = @ \o e2 \o n3 \o e3]
@@ -124,6 +126,17 @@ Step ==
                      /\ viol' = AddAll(viol, d5 \o d6)
                      /\ hits' = [hits EXCEPT !["D5"] = @ + 1]
                      /\ UNCHANGED <<run, cfg, nruns, learned, lastDisc, acc, wpos>>
+       [] r.ev = "api" /\ r.call = "peek" ->
+            \* peek shows the datagram recv would hand out next, whole and unchanged, and leaves the queue as it is
+            LET q == rxq[r.sock]
+                i == Idx(q, LAMBDA x : x.did = r.did)
+                skipped == i # 0 /\ \E j \in 1..(i - 1) : q[j].must
+                d5 == IF i = 0 THEN << <<l, "D5", r.sock, "peek-unknown", r.did, r.size>> >>
+                      ELSE IF skipped THEN << <<l, "D5", r.sock, "peek-out-of-order", r.did>> >>
+                      ELSE IF r.diff # -1 \/ r.size # q[i].size \/ r.sport # q[i].sport THEN << <<l, "D5", r.sock, "peek-altered", r.did, r.size, r.diff>> >>
+                      ELSE <<>>
+            IN /\ viol' = AddAll(viol, d5) /\ hits' = [hits EXCEPT !["D5"] = @ + 1]
+               /\ UNCHANGED <<run, cfg, nruns, learned, lastDisc, acc, wpos, rxq>>
        [] r.ev = "poll" ->
             LET lrn == TeachAll(learned, r.rx, r.now)
                 a == OutFold([lrn |-> lrn, disc |-> lastDisc, wpos |-> wpos, v |-> <<>>], r.out, r.now)
